@@ -1334,8 +1334,18 @@ pub fn run_file(c: &mut Ctx, path: &str) -> std::io::Result<()> {
     } else {
         std::fs::read_to_string(path)?
     };
+    // written line by line: an allocation failure inside the library aborts the process (it is
+    // not a panic), and the cases replayed so far should not be lost with it
+    let stdout = std::io::stdout();
     for line in text.lines() {
         replay_line(c, line);
+        if !c.out.is_empty() {
+            use std::io::Write;
+            let mut lock = stdout.lock();
+            lock.write_all(c.out.as_bytes())?;
+            lock.flush()?;
+            c.out.clear();
+        }
     }
     Ok(())
 }
